@@ -13,14 +13,17 @@ Open Scope string_scope.
 Open Scope list_scope.
 
 (* for every field spec (any key / second key / default / nullability / identity flag / decoder raising any class),
-   every class name and every input: what the constructor receives from the emitted block = Errs.field_step *)
+   every class name and every input: the emitted block raises the exception of Errs.field_step, or hands the
+   constructor the same value (block_agrees: equal results, except that for a null input on a field whose default is
+   None the block leaves kwargs alone where the model says `Some None`) *)
 Theorem C05_field_block_emitted : forall cls f d,
-  rmap (fill f) (run_block cls f d (in_kwargs (has_default f)) (block_of f)) = rmap (fill f) (field_step cls d f).
+  block_agrees f (run_block cls f d (in_kwargs (has_default f)) (block_of f)) (field_step cls d f).
 Proof. exact fblock_field_step. Qed.
 Print Assumptions C05_field_block_emitted.
 
-Theorem C05_field_blocks_emitted : forall cls d fs,
-  rmap (fill_all fs) (run_blocks cls d fs) = rmap (fill_all fs) (field_loop cls d fs).
+(* all blocks in declaration order: the first exception of the model's loop, or the constructor call receives exactly
+   the model's instance fields (recv_all: a positional local that was never bound would be an UnboundLocalError) *)
+Theorem C05_field_blocks_emitted : forall cls d fs, loop_agrees fs (run_blocks cls d fs) (field_loop cls d fs).
 Proof. exact fblocks_field_loop. Qed.
 Print Assumptions C05_field_blocks_emitted.
 
